@@ -709,6 +709,46 @@ func ruleReloadDeletesOnlyForeign(c *Ctx, rule string) {
 		c.undecided(rule, fn, "'found in a configured pool' flag", nil, "no boolean set to true together with the insertion into the rebuilt table under a Contains guard")
 		return
 	}
+	// the search over the configured pools gives up only on exhaustion: the flag can be false at the loop exit only
+	// on the edge from the loop header (all pools tried), never on an edge from a break inside the loop body
+	for _, f := range flags {
+		okX := true
+		var mayBeFalse func(v ssa.Value, depth int) bool
+		mayBeFalse = func(v ssa.Value, depth int) bool {
+			if b, isC := constBoolVal(v); isC {
+				return !b
+			}
+			if ph, isPhi := v.(*ssa.Phi); isPhi && depth < 5 {
+				for _, e := range ph.Edges {
+					if mayBeFalse(e, depth+1) {
+						return true
+					}
+				}
+				return false
+			}
+			return true
+		}
+		for i, e := range f.Edges {
+			if !mayBeFalse(e, 0) {
+				continue
+			}
+			pred := f.Block().Preds[i]
+			// the predecessor must be a loop header: it ends in an If and one of its predecessors is dominated by it
+			isHdr := false
+			if _, isIf := pred.Instrs[len(pred.Instrs)-1].(*ssa.If); isIf {
+				for _, pp := range pred.Preds {
+					if pred.Dominates(pp) {
+						isHdr = true
+					}
+				}
+			}
+			if !isHdr {
+				okX = false
+			}
+		}
+		c.ob(rule, fn, "an object is classified 'in no configured pool' only after every pool was tried", f, okX,
+			"at the exit of the search loop the 'found' flag can be false only on the edge from the loop header (exhaustion), not on an edge from a break: two pools may share one subnet")
+	}
 	notFound := guardEdges(fn, func(v ssa.Value) (bool, int) {
 		for _, f := range flags {
 			if v == ssa.Value(f) {
